@@ -248,6 +248,7 @@ func processSegments(in io.Reader, out *io.PipeWriter, processFn processSegmentF
 	// Get a buffer from the pool
 	buf := BufPool.Get().(*[]byte)
 	defer func() {
+		verifPoint("bufpool.put", buf)
 		BufPool.Put(buf)
 	}()
 
@@ -339,6 +340,7 @@ func readHeader(in *io.Reader) (manifest []byte, mac []byte, err error) {
 	// Get a buffer from the pool
 	buf := BufPool.Get().(*[]byte)
 	defer func() {
+		verifPoint("bufpool.put", buf)
 		BufPool.Put(buf)
 	}()
 
